@@ -243,6 +243,63 @@ let do_vpl (a : string list) : string =
   let arg = match a with [x] -> x | [] -> "-" | _ -> failwith "vpl args" in
   match parse_vpl vpl_empty_variant (cps_of arg) with Some p -> "ok:" ^ fmt_vpipe p | None -> "err"
 
+(* ---------- C10 / C11 vector tiles ---------- *)
+let bytes_of_hex (h : string) : n list =
+  if h = "-" then [] else List.init (String.length h / 2) (fun i -> n_of_int (int_of_string ("0x" ^ String.sub h (2 * i) 2)))
+let hex_of_bytes (l : n list) : string = if l = [] then "-" else String.concat "" (List.map (fun b -> Printf.sprintf "%02x" (int_of_n b)) l)
+let utf8_valid (l : n list) : bool =
+  let rec go = function
+    | [] -> true
+    | b :: r when b < 0x80 -> go r
+    | b :: c1 :: r when b >= 0xC2 && b <= 0xDF && c1 land 0xC0 = 0x80 -> go r
+    | b :: c1 :: c2 :: r when b >= 0xE0 && b <= 0xEF && c1 land 0xC0 = 0x80 && c2 land 0xC0 = 0x80
+        && not (b = 0xE0 && c1 < 0xA0) && not (b = 0xED && c1 >= 0xA0) -> go r
+    | b :: c1 :: c2 :: c3 :: r when b >= 0xF0 && b <= 0xF4 && c1 land 0xC0 = 0x80 && c2 land 0xC0 = 0x80 && c3 land 0xC0 = 0x80
+        && not (b = 0xF0 && c1 < 0x90) && not (b = 0xF4 && c1 >= 0x90) -> go r
+    | _ -> false in
+  go (List.map int_of_n l)
+let dump_value = function
+  | VStr0 s -> "s" ^ hex_of_bytes s | VFloat b -> "f" ^ string_of_n b | VDouble b -> "d" ^ string_of_n b
+  | VInt z -> "i" ^ string_of_z z | VUInt u -> "u" ^ string_of_n u | VBool0 b -> "b" ^ b01 b
+let dump_mlayer (l : layer) : string =
+  let feat (f : feature) =
+    let props = match decode_tags l.lkeys l.lvals f.ftags with
+      | None -> "!"
+      | Some ps ->
+          (* BTreeMap: sorted by key bytes, last duplicate wins *)
+          let keys = List.sort_uniq compare (List.map (fun (k, _) -> List.map int_of_n k) ps) in
+          if keys = [] then "-" else
+          String.concat "&" (List.map (fun ik -> let k = List.map n_of_int ik in
+            hex_of_bytes k ^ "=" ^ dump_value (snd (List.find (fun (k', _) -> k' = k) (List.rev ps)))) keys) in
+    Printf.sprintf "%s:%s:%s:%s" (match f.fid with None -> "-" | Some i -> string_of_n i) (string_of_n f.ftype) (hex_of_bytes f.fgeom) props in
+  Printf.sprintf "L%s,%s,%s[%s]" (hex_of_bytes l.lname) (string_of_n l.lextent) (string_of_n l.lversion) (String.concat ";" (List.map feat l.lfeatures))
+let strings_ok (ls : layer list) : bool =
+  List.for_all (fun l -> utf8_valid l.lname && List.for_all utf8_valid l.lkeys
+    && List.for_all (function VStr0 s -> utf8_valid s | _ -> true) l.lvals) ls
+let dump_mtile (sorted : bool) (ls : layer list) : string =
+  let d = List.map dump_mlayer ls in
+  let d = if sorted then List.sort compare d else d in
+  if d = [] then "-" else String.concat "|" d
+let dec_tile (h : string) : layer list option =
+  match decode_tile mvt_table_variant zigzag_variant (bytes_of_hex h) with
+  | Some ls when strings_ok ls -> Some ls | _ -> None
+let do_mvt (op : string) (a : string list) : string =
+  match op, a with
+  | "varint", [v] -> let b = write_varint (n_of_string v) in
+      hex_of_bytes b ^ " " ^ (match read_varint b with Some (x, _) -> string_of_n x | None -> "err")
+  | "svarint", [z] -> let b = write_varint (zz_enc (z_of_string z)) in
+      hex_of_bytes b ^ " " ^ (match read_varint b with Some (x, _) -> string_of_z (zz_dec zigzag_variant x) | None -> "err")
+  | "mvt.dec", [h] -> (match dec_tile h with Some ls -> dump_mtile false ls | None -> "err")
+  | "mvt.rt", [h] -> (match dec_tile h with
+      | Some ls -> (match decode_tile mvt_table_variant zigzag_variant (encode_tile ls) with Some l2 -> dump_mtile false l2 | None -> "err")
+      | None -> "err")
+  | "mvt.merge", [hs] ->
+      let tiles = List.map dec_tile (List.filter (fun x -> x <> "") (split_on ';' hs)) in
+      if List.exists (fun t -> t = None) tiles then "err" else
+      (match merge_tiles [] (List.map (function Some t -> t | None -> []) tiles) with
+       | Some ls -> dump_mtile true ls | None -> "err")
+  | _ -> "?mvt-args"
+
 (* ---------- dispatch ---------- *)
 let dispatch (op : string) (args : string list) : string =
   match op with
@@ -252,6 +309,7 @@ let dispatch (op : string) (args : string list) : string =
   | "recomp" | "optc" -> do_recomp op args
   | "tilepath" | "static" -> do_http op args
   | "vpl" -> do_vpl args
+  | "varint" | "svarint" | "mvt.dec" | "mvt.rt" | "mvt.merge" -> do_mvt op args
   | _ when String.length op > 5 && String.sub op 0 5 = "json." -> do_json op args
   | "sysprog" -> (match args with
       | [off; len] -> String.concat "," (List.map (function
